@@ -24,10 +24,13 @@ TEXT = {
                             "functions, tests of its state) the sets of symbolic event paths are equal — X adds no branch, call, write or return to unrelated code",
     "C15.constants": "type-level constants published by a machine (STATE/REGION/COMPO/ORTHO counts, TASK_CAPACITY, SERIAL_BITS, SUBSTITUTION_LIMIT) are the same "
                      "in every configuration in which they exist",
+    "C15.options": "every Config option alias changes exactly its own option: applied to a configuration with every option away from its default it leaves "
+                   "all other options as they were, applied to the default configuration it sets its own option to the requested value, and the "
+                   "result does not depend on the order of the options (type-level witness under the all-on and all-off feature sets, both flavours)",
     "C15.tag": "every HFSM2_ENABLE_* / HFSM2_DISABLE_* switch that changes declarations contributes its own distinct bit to HFSM2_FEATURE_TAG",
     "C15.payload": "the payload and void copies of the plan code agree modulo the payload arm (same rule instances as C06.siblings)",
 }
-MIN_INSTANCES = {"C15.flavour": 1, "C15.non-interference": 100, "C15.constants": 5, "C15.tag": 5, "C15.payload": 1}
+MIN_INSTANCES = {"C15.options": 40, "C15.flavour": 1, "C15.non-interference": 100, "C15.constants": 5, "C15.tag": 5, "C15.payload": 1}
 
 CORE = ("S_", "C_", "CS_", "O_", "OS_", "R_", "RV_", "RP_", "RC_", "A_", "RegistryT", "ControlT", "ConstControlT", "PlanControlT", "FullControlBaseT", "FullControlT",
         "GuardControlT", "EventControlT", "PreReactWrapperT", "ReactWrapperT", "PostReactWrapperT", "QueryWrapperT", "CoreT", "Origin", "Region", "Lock")
@@ -190,6 +193,8 @@ def erase(paths, rex):
 
 
 def final(ctx):
+    from . import cfgwit
+    cfgwit.run(ctx, "C15.options", configs=("all", "none") if ctx.tier == "quick" else ("all", "none", "plans", "utility"))
     C06.final(C03._Alias(ctx, {"C06.siblings": "C15.payload"}))
     store = ctx.shared.get("C15.fp", {})
     pairs = PAIRS_QUICK if ctx.tier == "quick" else PAIRS_THOROUGH
